@@ -1,9 +1,9 @@
 package props
 
 import (
-	"os"
 	"encoding/json"
 	"fmt"
+	"os"
 	"sort"
 	"time"
 
